@@ -87,6 +87,69 @@ Sha2Digest(msg, w) == LET st == Sha2State(msg, w) IN FlatBytes([i \in 1..8 |-> B
 Sha256(msg) == Sha2Digest(msg, 32)
 Sha512(msg) == Sha2Digest(msg, 64)
 
+
+\* ---- RIPEMD-160 (Dobbertin, Bosselaers, Preneel 1996; ISO/IEC 10118-3) --------------
+\* two parallel lines of 5 x 16 steps on 32-bit words; little-endian words, MD4-style padding with a 64-bit length
+RotL32(x, s) == RotR(x, 32 - s, 32)
+Not32(x) == NotW(x, 32)
+RmdF(j, x, y, z) ==
+  CASE j < 16 -> BitXor(BitXor(x, y), z)
+    [] j < 32 -> BitOr(BitAnd(x, y), BitAnd(Not32(x), z))
+    [] j < 48 -> BitXor(BitOr(x, Not32(y)), z)
+    [] j < 64 -> BitOr(BitAnd(x, z), BitAnd(y, Not32(z)))
+    [] OTHER  -> BitXor(x, BitOr(y, Not32(z)))
+\* added constants: the integer parts of 2^30 times the square roots (left line) and cube roots (right line) of 2, 3, 5, 7
+RmdKL == <<Zero, IRoot(Mul(OfInt(2), Pow2(60)), 2), IRoot(Mul(OfInt(3), Pow2(60)), 2), IRoot(Mul(OfInt(5), Pow2(60)), 2), IRoot(Mul(OfInt(7), Pow2(60)), 2)>>
+RmdKR == <<IRoot(Mul(OfInt(2), Pow2(90)), 3), IRoot(Mul(OfInt(3), Pow2(90)), 3), IRoot(Mul(OfInt(5), Pow2(90)), 3), IRoot(Mul(OfInt(7), Pow2(90)), 3), Zero>>
+RmdRL == <<0, 1, 2, 3, 4, 5, 6, 7, 8, 9, 10, 11, 12, 13, 14, 15,
+           7, 4, 13, 1, 10, 6, 15, 3, 12, 0, 9, 5, 2, 14, 11, 8,
+           3, 10, 14, 4, 9, 15, 8, 1, 2, 7, 0, 6, 13, 11, 5, 12,
+           1, 9, 11, 10, 0, 8, 12, 4, 13, 3, 7, 15, 14, 5, 6, 2,
+           4, 0, 5, 9, 7, 12, 2, 10, 14, 1, 3, 8, 11, 6, 15, 13>>
+RmdRR == <<5, 14, 7, 0, 9, 2, 11, 4, 13, 6, 15, 8, 1, 10, 3, 12,
+           6, 11, 3, 7, 0, 13, 5, 10, 14, 15, 8, 12, 4, 9, 1, 2,
+           15, 5, 1, 3, 7, 14, 6, 9, 11, 8, 12, 2, 10, 0, 4, 13,
+           8, 6, 4, 1, 3, 11, 15, 0, 5, 12, 2, 13, 9, 7, 10, 14,
+           12, 15, 10, 4, 1, 5, 8, 7, 6, 2, 13, 14, 0, 3, 9, 11>>
+RmdSL == <<11, 14, 15, 12, 5, 8, 7, 9, 11, 13, 14, 15, 6, 7, 9, 8,
+           7, 6, 8, 13, 11, 9, 7, 15, 7, 12, 15, 9, 11, 7, 13, 12,
+           11, 13, 6, 7, 14, 9, 13, 15, 14, 8, 13, 6, 5, 12, 7, 5,
+           11, 12, 14, 15, 14, 15, 9, 8, 9, 14, 5, 6, 8, 6, 5, 12,
+           9, 15, 5, 11, 6, 8, 13, 12, 5, 12, 13, 14, 11, 8, 5, 6>>
+RmdSR == <<8, 9, 9, 11, 13, 15, 15, 5, 7, 7, 8, 11, 14, 14, 12, 6,
+           9, 13, 15, 7, 12, 8, 9, 11, 7, 7, 12, 7, 6, 15, 13, 11,
+           9, 7, 15, 11, 8, 6, 6, 14, 12, 13, 5, 14, 13, 13, 7, 5,
+           15, 5, 8, 11, 14, 14, 6, 14, 6, 9, 12, 9, 12, 5, 15, 8,
+           8, 5, 12, 9, 12, 5, 14, 6, 8, 13, 6, 5, 15, 13, 11, 11>>
+\* initial value 67452301 EFCDAB89 98BADCFE 10325476 C3D2E1F0 (as little-endian byte digits)
+RmdH0 == <<OfBytesLE(<<1, 35, 69, 103>>), OfBytesLE(<<137, 171, 205, 239>>), OfBytesLE(<<254, 220, 186, 152>>),
+           OfBytesLE(<<118, 84, 50, 16>>), OfBytesLE(<<240, 225, 210, 195>>)>>
+Add32(a, b) == LowBits(Add(a, b), 32)
+\* one step of a line: st = <<A, B, C, D, E>>
+RmdStep(st, x, k, s, f) ==
+  LET t == Add32(RotL32(Add32(Add32(Add32(st[1], f), x), k), s), st[5])
+  IN <<st[5], t, st[2], RotL32(st[3], 10), st[4]>>
+RmdPad(msg) ==
+  LET n == Len(msg)
+      total == ((n + 9 + 63) \div 64) * 64
+      bits == BytesLE(OfInt(8 * n), 8)
+  IN [i \in 1..total |-> IF i <= n THEN msg[i] ELSE IF i = n + 1 THEN 128 ELSE IF i > total - 8 THEN bits[i - (total - 8)] ELSE 0]
+RmdCompress(h, blk) ==           \* blk: 64 bytes
+  LET X == [i \in 1..16 |-> OfBytesLE(SubSeq(blk, 4 * i - 3, 4 * i))]
+      L == FoldLeft(LAMBDA st, j : RmdStep(st, X[RmdRL[j + 1] + 1], RmdKL[(j \div 16) + 1], RmdSL[j + 1], RmdF(j, st[2], st[3], st[4])),
+                    h, [j \in 1..80 |-> j - 1])
+      R == FoldLeft(LAMBDA st, j : RmdStep(st, X[RmdRR[j + 1] + 1], RmdKR[(j \div 16) + 1], RmdSR[j + 1], RmdF(79 - j, st[2], st[3], st[4])),
+                    h, [j \in 1..80 |-> j - 1])
+  IN <<Add32(Add32(h[2], L[3]), R[4]), Add32(Add32(h[3], L[4]), R[5]), Add32(Add32(h[4], L[5]), R[1]),
+       Add32(Add32(h[5], L[1]), R[2]), Add32(Add32(h[1], L[2]), R[3])>>
+Ripemd160(msg) ==
+  LET p == RmdPad(msg)
+      st == FoldLeft(LAMBDA h, b : RmdCompress(h, SubSeq(p, 64 * b - 63, 64 * b)), RmdH0, [b \in 1..(Len(p) \div 64) |-> b])
+  IN FlatBytes([i \in 1..5 |-> BytesLE(st[i], 4)])
+\* test vectors of the RIPEMD-160 paper: "" and "abc"
+ASSUME Ripemd160(<<>>) = <<156, 17, 133, 165, 197, 233, 252, 84, 97, 40, 8, 151, 126, 232, 245, 72, 178, 37, 141, 49>>
+ASSUME Ripemd160(<<97, 98, 99>>) = <<142, 178, 8, 247, 224, 93, 152, 122, 155, 4, 74, 142, 152, 198, 176, 135, 241, 90, 11, 252>>
+
 \* ---- Poseidon -------------------------------------------------------------------
 PWidth == 3
 PRate == 2
